@@ -27,7 +27,7 @@ for _id,_fam in (('C13','AVX2'),('C14','AVX-512 (two interleaved states)')):
         'note': 'Trusted: intrinsics model (bound by C02/C11 conformance), __int128 oracle, scaled form of the 8-bit precondition. Composition bugs need two or more non-canonical values in one lane (probability ~2^-64 at full width); the scaled enumeration covers every such combination, the native run covers them through exact-product generators.',
     }
 
-ENGINES.append({'name': 'cfgx', 'path': 'harness', 'serves_properties': ['C07','C08'], 'kind_free_text': 'configuration explorer: full cross product of shape/length/thread/backend dimensions, exact-size guard-page arenas, one process per case group with per-case crash attribution, independent reference'})
+ENGINES.append({'name': 'cfgx', 'path': 'harness', 'serves_properties': ['C03','C04','C05','C07','C08'], 'kind_free_text': 'configuration explorer: full cross product of shape/length/thread/backend dimensions, exact-size guard-page arenas, one process per case group with per-case crash attribution, independent reference'})
 CHECKS['C06'] = {
     'engine': 'simw+lift64',
     'technique': 'exhaustive single-position deviation over all 2^16 lane values (and position pairs) on the whole permutation recompiled at w=8; table obligations; bounded-deviation enumeration on the compiled code',
@@ -45,4 +45,32 @@ CHECKS['C08'] = {
     'technique': 'exhaustive cross product rows x cols x dim x threads x backend x batch size with exact guard-page extents against a reference tree',
     'text': 'Every combination of rows in {1..16 (64)}, cols in {0..12,15,16,17}, dim in {1,2,3}, thread counts {0,1,2,3,5}, backend {seq, avx, avx512, wrapper} and every batch size 1..cols+1 is built on exact-size guard-page arenas and every element of the tree buffer is compared with a reference tree; crashes are attributed to the exact configuration.',
     'note': 'Contents are three patterns per configuration (dependence on contents is through the hash, covered by C06/C07). Schedules of the thread team are covered by C12.',
+}
+
+ENGINES.append({'name': 'ovl', 'path': 'engine/ovl', 'serves_properties': ['C16','C17'], 'kind_free_text': 'overload catalogue parsed from the headers on every run, spec by rule + listed exceptions, generated wrappers, exhaustive stride/index/value-pass enumeration with exact read/write sets (sentinels, guard pages, ASan-poisoned exact blocks)'})
+ENGINES.append({'name': 'ptxw', 'path': 'engine/ptxw', 'serves_properties': ['C20'], 'kind_free_text': 'PTX-subset interpreter generated from the text of gl64_t.cuh (98 asm statements), width-parametric integer classes, both __CUDA_ARCH__ variants; table checker'})
+for _id,_what in (('C03','forward transform equals the DFT'),('C04','inverse transform equals the inverse DFT'),('C05','extendPol equals the low-degree extension on 7<w_Next>')):
+    CHECKS[_id] = {
+        'engine': 'cfgx',
+        'technique': 'exhaustive enumeration of the configuration space (domain, size, columns, phases, blocks, buffer, destination aliasing, threads) x complete impulse basis, closed-form oracle',
+        'text': 'Every configuration in the cross product of object domain D<=32 (thorough 128), size n<=D including 0, column counts {0,1,2,3,5}, all phase values 0..log2 D+2 and 2^64-1, block counts {0,1,2,3,ncols,ncols+1,2^64-1}, scratch buffer or NULL, destination = source/other/NULL and constructor thread counts is executed on the real object with the complete impulse basis in every column plus a dense non-canonical input, on exact-size guard-page arrays; '+_what+' by comparison with a closed-form kernel. Linearity makes the basis sufficient for all inputs.',
+        'note': 'Linearity rests on C01 and on the absence of data-dependent control flow in the transform code. Sizes above the bound are not run; all schedule shapes (pass counts, clamping, parity, block remainders) occur below it. Thread schedules are C12.',
+    }
+CHECKS['C16'] = {
+    'engine': 'ovl',
+    'technique': 'exhaustive enumeration over the overload catalogue x stride/index configurations x tag and boundary value passes, exact write/read sets',
+    'text': 'All 159 live batched/AVX2/AVX-512 overloads of the cubic-extension add/sub/mul/copy families are extracted from the header on every run, given a spec by rule (exceptions listed), and each is called on every combination of strides {0,1,3,5,1000}, six index-array shapes and 122 value passes (tags making every position distinct, boundary values rotated through every position); element k of the result is compared with the scalar extension operation in the output layout, the result arena must be untouched elsewhere, and an ASan build with exact poisoned blocks bounds the reads.',
+    'note': 'Spec rule is the harness author\'s reading of names/parameters; results never alias inputs; colliding output lanes not enumerated; values from a boundary alphabet (lane arithmetic is C02/C11/C09).',
+}
+CHECKS['C17'] = {
+    'engine': 'ovl',
+    'technique': 'exhaustive enumeration over the overload catalogue x stride/index configurations x value passes; parcpy/parSetZero over all sizes and thread arguments in the bound',
+    'text': 'All 160 defined base-field copy/add/sub/mul batch/AVX2/AVX-512 wrappers are catalogued from the headers and exercised as for C16 (lane k = field op on the k-th designated operands, exact write set, ASan-bounded reads). parcpy and parSetZero run for every size in {0..40,63,64,65,1000} and thread argument in {INT_MIN,-1,0,1,2,3,7,64,size,size+1} with sentinel-fenced destinations.',
+    'note': 'add_batch(...,const uint64_t offsets2[4]) is declared but never defined: listed uncovered. Commented-out declarations in the AVX-512 block are not overloads.',
+}
+CHECKS['C20'] = {
+    'engine': 'ptxw',
+    'technique': 'exhaustive enumeration of all operand tuples on the device code executed through a PTX interpreter at word width w=4,6 (8 thorough), alphabet pairs at 64 bits; exhaustive table equations',
+    'text': 'gl64_t.cuh is converted from its text on every run (every asm statement becomes interpreter calls with carry flag and predicates persisting as PTX defines), compiled for __CUDA_ARCH__ 700 and 600, and every public arithmetic operation is run on all operand tuples at reduced word width and on alphabet pairs at 64 bits against __int128 arithmetic with canonical results required; the three device tables are checked row by row (328 equations) against the CPU table and their defining relations.',
+    'note': 'No nvcc/GPU in the sandbox: model traces cannot be replayed on a device (traces_validated_against_impl = 0); trusted base is the PTX semantics in engine/ptxw/ptxw.hpp. An unknown opcode makes the arithmetic half report unavailable instead of guessing.',
 }
